@@ -10,8 +10,17 @@
 //! delivered to the real subscription of the same stream, which must yield it.
 //! Everything runs on one thread (current-thread runtime + `block_on`), the thread whose mock
 //! clock the harness sets before each call that reads it.
+//!
+//! Overlapping publishes through clones of one publisher are forced WITHOUT hooks by back-pressure:
+//! the mpsc channel publisher -> gossip actor handed out by the probe has the capacity the
+//! specification chose (1, 2, ..) and is drained only where the specification's `Drain` steps say
+//! so. Every `publish` call is a future the harness polls by hand with its own counting waker: the
+//! first poll draws the timestamp, signs, encodes and either enqueues or parks in `send().await`;
+//! a parked call is polled again only after its waker fired (a drained message frees a permit).
 use std::pin::Pin;
 use std::sync::Arc;
+use std::collections::BTreeMap;
+use std::future::Future;
 use std::sync::atomic::{AtomicU64, Ordering};
 use std::task::{Context, Poll, Wake, Waker};
 use std::time::Duration;
@@ -19,7 +28,7 @@ use std::time::Duration;
 use ciborium::Value as Cbor;
 use futures_util::Stream;
 use mock_instant::thread_local::MockClock;
-use p2panda::streams::{EphemeralStreamPublisher, EphemeralStreamSubscription};
+use p2panda::streams::{EphemeralPublishError, EphemeralStreamPublisher, EphemeralStreamSubscription};
 use p2panda::verif_api::{OperationForge, verif_ephemeral_stream};
 use p2panda_core::{SigningKey, Topic};
 use p2panda_net::AddressBook;
@@ -79,13 +88,45 @@ impl Wake for Noop {
     fn wake(self: Arc<Self>) {}
 }
 
+#[derive(Default)]
+struct CountWaker(AtomicU64);
+impl Wake for CountWaker {
+    fn wake(self: Arc<Self>) {
+        self.0.fetch_add(1, Ordering::SeqCst);
+    }
+    fn wake_by_ref(self: &Arc<Self>) {
+        self.0.fetch_add(1, Ordering::SeqCst);
+    }
+}
+
+type PublishFuture = Pin<Box<dyn Future<Output = Result<(), EphemeralPublishError>>>>;
+
+/// A `publish` call that is parked in the send await.
+struct InFlight {
+    call: usize,
+    fut: PublishFuture,
+    waker: Arc<CountWaker>,
+    seen: u64,
+}
+
 struct Stream1 {
     _gossip: Gossip,
-    publisher: EphemeralStreamPublisher<String>,
+    /// "p1" is the publisher `ephemeral_stream` returned, the others are clones of it
+    handles: BTreeMap<String, EphemeralStreamPublisher<String>>,
+    inflight: BTreeMap<String, InFlight>,
+    /// number of publish calls started so far (a call's number is its position in DRAW order: the
+    /// first poll of a call draws its timestamp)
+    calls: usize,
+    /// call numbers in the order in which their messages entered the gossip channel (a first poll or a
+    /// resume that returned Ok(())); the channel is FIFO, so the k-th message taken out belongs to `entered[k]`
+    entered: Vec<usize>,
+    taken: usize,
     sub: Pin<Box<EphemeralStreamSubscription<String>>>,
     from_tx: broadcast::Sender<Vec<u8>>,
     to_rx: mpsc::Receiver<Vec<u8>>,
 }
+
+const BODY: &str = "same body every time";
 
 impl Env {
     fn new() -> Env {
@@ -96,13 +137,13 @@ impl Env {
         Env { rt, address_book, store, key: SigningKey::from_bytes(&[0xA1; 32]), topics: AtomicU64::new(1) }
     }
 
-    /// `ephemeral_stream` while the wall clock reads `w0`.
-    fn create_stream(&self, w0: u64) -> Stream1 {
+    /// `ephemeral_stream` while the wall clock reads `w0`; the channel to gossip holds `gcap` messages.
+    fn create_stream(&self, w0: u64, gcap: usize) -> Stream1 {
         let n = self.topics.fetch_add(1, Ordering::SeqCst);
         let mut t = [0u8; 32];
         t[..8].copy_from_slice(&n.to_be_bytes());
         let topic = Topic::from(t);
-        let (to_tx, to_rx) = mpsc::channel::<Vec<u8>>(1024);
+        let (to_tx, to_rx) = mpsc::channel::<Vec<u8>>(gcap);
         let (from_tx, rx0) = broadcast::channel::<Vec<u8>>(1024);
         drop(rx0);
         let forge = OperationForge::from_signing_key(self.key.clone(), self.store.clone());
@@ -114,23 +155,86 @@ impl Env {
             let (publisher, sub) = verif_ephemeral_stream::<String>(topic, forge, handle);
             (gossip, publisher, sub)
         });
-        Stream1 { _gossip: gossip, publisher, sub: Box::pin(sub), from_tx, to_rx }
+        let mut handles = BTreeMap::new();
+        for name in ["p2", "p3"] {
+            handles.insert(name.to_string(), publisher.clone());
+        }
+        handles.insert("p1".to_string(), publisher);
+        Stream1 { _gossip: gossip, handles, inflight: BTreeMap::new(), calls: 0, entered: Vec::new(), taken: 0, sub: Box::pin(sub), from_tx, to_rx }
     }
 }
 
-/// The fields of a published message the property talks about.
+/// A message taken from the channel to gossip.
 #[derive(Debug, Clone, PartialEq)]
 struct Published {
+    /// number of the publish call that produced it, in draw order
+    call: usize,
     bytes: Vec<u8>,
     ts: (u64, u64),
 }
 
 impl Stream1 {
-    /// `publish(body)` while the wall clock reads `w`; returns the bytes handed to gossip.
-    fn publish(&mut self, env: &Env, w: u64, body: &str) -> Result<Published, String> {
+    /// First poll of `handle.publish(BODY)` while the wall clock reads `w`.
+    /// Ok(true) = returned Ok(()), Ok(false) = parked in the send await.
+    fn start(&mut self, h: &str, w: u64) -> Result<bool, String> {
+        if self.inflight.contains_key(h) {
+            return Err(format!("handle {h} still has a publish in flight"));
+        }
+        let p = self.handles.get(h).ok_or_else(|| format!("no handle {h}"))?.clone();
+        let mut fut: PublishFuture = Box::pin(async move { p.publish(BODY.to_string()).await });
+        let waker = Arc::new(CountWaker::default());
         set_wall(w);
-        catch(|| env.rt.block_on(self.publisher.publish(body.to_string())))?.map_err(|e| format!("publish failed: {e}"))?;
-        let bytes = self.to_rx.try_recv().map_err(|e| format!("nothing handed to gossip: {e}"))?;
+        let w2 = Waker::from(waker.clone());
+        let mut cx = Context::from_waker(&w2);
+        let call = self.calls;
+        self.calls += 1;
+        match catch(|| fut.as_mut().poll(&mut cx))? {
+            Poll::Ready(Ok(())) => {
+                self.entered.push(call);
+                Ok(true)
+            }
+            Poll::Ready(Err(e)) => Err(format!("publish failed: {e}")),
+            Poll::Pending => {
+                let seen = waker.0.load(Ordering::SeqCst);
+                self.inflight.insert(h.to_string(), InFlight { call, fut, waker, seen });
+                Ok(false)
+            }
+        }
+    }
+
+    /// Handles whose parked publish was woken since it was last polled.
+    fn woken(&self) -> Vec<String> {
+        self.inflight.iter().filter(|(_, f)| f.waker.0.load(Ordering::SeqCst) > f.seen).map(|(h, _)| h.clone()).collect()
+    }
+
+    /// Polls the parked publish of `h` again. Ok(true) = returned Ok(()).
+    fn resume(&mut self, h: &str) -> Result<bool, String> {
+        let mut f = self.inflight.remove(h).ok_or_else(|| format!("handle {h} has nothing in flight"))?;
+        f.seen = f.waker.0.load(Ordering::SeqCst);
+        let w2 = Waker::from(f.waker.clone());
+        let mut cx = Context::from_waker(&w2);
+        match catch(|| f.fut.as_mut().poll(&mut cx))? {
+            Poll::Ready(Ok(())) => {
+                self.entered.push(f.call);
+                Ok(true)
+            }
+            Poll::Ready(Err(e)) => Err(format!("publish failed: {e}")),
+            Poll::Pending => {
+                self.inflight.insert(h.to_string(), f);
+                Ok(false)
+            }
+        }
+    }
+
+    /// The gossip actor takes one message out of the channel. Returns it and whether that woke a parked publish.
+    fn drain(&mut self) -> Result<Option<(Published, bool)>, String> {
+        let before = self.woken().len();
+        let bytes = match self.to_rx.try_recv() {
+            Ok(b) => b,
+            Err(mpsc::error::TryRecvError::Empty) => return Ok(None),
+            Err(e) => return Err(format!("gossip channel: {e}")),
+        };
+        let woke = self.woken().len() > before;
         let fields = match ciborium::from_reader::<Cbor, _>(&bytes[..]) {
             Ok(Cbor::Array(f)) if f.len() == 6 => f,
             other => return Err(format!("published bytes are not the 6-tuple: {other:?}")),
@@ -139,7 +243,9 @@ impl Stream1 {
             Cbor::Integer(i) => u64::try_from(*i).map_err(|e| e.to_string()),
             other => Err(format!("not an integer: {other:?}")),
         };
-        Ok(Published { ts: (int(&fields[3])?, int(&fields[4])?), bytes })
+        let call = self.entered.get(self.taken).copied().ok_or("a message in the gossip channel that no publish call put there")?;
+        self.taken += 1;
+        Ok(Some((Published { call, ts: (int(&fields[3])?, int(&fields[4])?), bytes }, woke)))
     }
 
     /// Delivers the bytes to the stream's own subscription; returns (author ok, timestamp, body) if yielded.
@@ -161,7 +267,11 @@ fn lex_less(a: (u64, u64), b: (u64, u64)) -> bool {
     a.0 < b.0 || (a.0 == b.0 && a.1 < b.1)
 }
 
-/// Property-level judgement of a publish sequence (C16, second sentence).
+/// Property-level judgement of everything one publisher (all its clones) handed to gossip (C16, second
+/// sentence): no two messages byte-identical, and timestamps strictly increasing in the order in which
+/// the publish calls drew them. (Channel order is NOT draw order in general: with a free permit a later
+/// call may enqueue before a woken earlier one is polled again. Which call a message belongs to follows
+/// from facts the harness observes itself: when each call returned, and the channel being FIFO.)
 fn judge_sequence(out: &mut Outcome, seq: &[Published], case: &Value) -> bool {
     for j in 0..seq.len() {
         for k in (j + 1)..seq.len() {
@@ -169,17 +279,24 @@ fn judge_sequence(out: &mut Outcome, seq: &[Published], case: &Value) -> bool {
                 out.violation(
                     "C16",
                     "byte-identical-messages",
-                    format!("publishes {j} and {k} of one publisher are byte-identical (timestamp {:?})", seq[j].ts),
+                    format!(
+                        "the messages of publish calls {} and {} of one publisher are byte-identical (timestamp {:?})",
+                        seq[j].call, seq[k].call, seq[j].ts
+                    ),
                     case.clone(),
                 );
                 return false;
             }
         }
-        if j + 1 < seq.len() && !lex_less(seq[j].ts, seq[j + 1].ts) {
+    }
+    let mut by_draw: Vec<&Published> = seq.iter().collect();
+    by_draw.sort_by_key(|p| p.call);
+    for w in by_draw.windows(2) {
+        if !lex_less(w[0].ts, w[1].ts) {
             out.violation(
                 "C16",
                 "timestamp-not-increasing",
-                format!("publish {} carries timestamp {:?}, the previous one {:?}", j + 1, seq[j + 1].ts, seq[j].ts),
+                format!("publish call {} drew timestamp {:?}, call {} before it {:?}", w[1].call, w[1].ts, w[0].call, w[0].ts),
                 case.clone(),
             );
             return false;
@@ -188,13 +305,103 @@ fn judge_sequence(out: &mut Outcome, seq: &[Published], case: &Value) -> bool {
     true
 }
 
+/// Executes one exported behaviour in one magnitude. Err = first disagreement with the specification.
+fn run_behaviour(env: &Env, out: &mut Outcome, b: &Value, e: (u64, u64), emitted: &mut Vec<Published>, overlap: &mut bool) -> Result<(), String> {
+    let emb = |x: u64| e.0 + x * e.1;
+    let gcap = b["gcap"].as_u64().unwrap() as usize;
+    let mut stream: Option<Stream1> = None;
+    // outcome of the last poll per handle: true = the call returned Ok(())
+    let mut returned: BTreeMap<String, bool> = BTreeMap::new();
+    for (idx, step) in b["steps"].as_array().expect("steps").iter().enumerate() {
+        let h = step["h"].as_str().unwrap_or("");
+        match step["ev"].as_str().unwrap() {
+            "CreateStream" => stream = Some(env.create_stream(emb(step["w"].as_u64().unwrap()), gcap)),
+            "DrawTs" => {
+                let s = stream.as_mut().ok_or("no stream")?;
+                if !s.inflight.is_empty() {
+                    *overlap = true; // another publish has drawn its timestamp and not returned yet
+                    out.count("draw-while-another-publish-is-in-flight");
+                }
+                let done = s.start(h, emb(step["w"].as_u64().unwrap())).map_err(|m| format!("step {idx}: {m}"))?;
+                returned.insert(h.to_string(), done);
+            }
+            "SignEncode" => {}
+            "SendTry" => {
+                let waits = step["waits"].as_bool().unwrap();
+                if returned.get(h) != Some(&!waits) {
+                    return Err(format!(
+                        "step {idx}: first poll of publish on {h} returned={:?}, specification says it {}",
+                        returned.get(h),
+                        if waits { "parks in the send await" } else { "enqueues and returns" }
+                    ));
+                }
+            }
+            "SendResume" => {
+                let s = stream.as_mut().ok_or("no stream")?;
+                if !s.woken().iter().any(|x| x == h) {
+                    return Err(format!("step {idx}: specification resumes {h}, its waker did not fire (woken: {:?})", s.woken()));
+                }
+                let done = s.resume(h).map_err(|m| format!("step {idx}: {m}"))?;
+                returned.insert(h.to_string(), done);
+            }
+            "Return" => {
+                if returned.get(h) != Some(&true) {
+                    return Err(format!("step {idx}: specification says publish on {h} returns, the real call is still pending"));
+                }
+            }
+            "Drain" => {
+                let s = stream.as_mut().ok_or("no stream")?;
+                let exp = (emb(step["ts"][0].as_u64().unwrap()), step["ts"][1].as_u64().unwrap());
+                match s.drain().map_err(|m| format!("step {idx}: {m}"))? {
+                    None => return Err(format!("step {idx}: gossip channel is empty, specification takes {exp:?} out of it")),
+                    Some((p, woke)) => {
+                        let ts = p.ts;
+                        let yielded = s.roundtrip(env, &p.bytes);
+                        emitted.push(p.clone());
+                        match yielded {
+                            Some((true, t, body)) if t == ts.0 && body == BODY => {}
+                            other => return Err(format!("step {idx}: own subscription did not yield the published message as signed: {other:?}")),
+                        }
+                        if ts != exp {
+                            return Err(format!("step {idx}: message taken from the gossip channel carries timestamp {ts:?}, specification says {exp:?}"));
+                        }
+                        if woke != step["woke"].as_bool().unwrap() {
+                            return Err(format!("step {idx}: draining woke a parked publish: {woke}, specification says {}", step["woke"]));
+                        }
+                    }
+                }
+            }
+            other => {
+                eprintln!("unknown step {other}");
+                std::process::exit(2);
+            }
+        }
+    }
+    if let Some(s) = stream.as_mut() {
+        // nothing may be left: the specification's behaviour ends with all calls returned and the channel empty
+        while let Some((p, _)) = s.drain()? {
+            emitted.push(p);
+            let woken = s.woken();
+            for h in woken {
+                let _ = s.resume(&h);
+            }
+            return Err("messages left in the gossip channel after the behaviour ended".into());
+        }
+        if !s.inflight.is_empty() {
+            return Err(format!("publish calls still pending after the behaviour ended: {:?}", s.inflight.keys().collect::<Vec<_>>()));
+        }
+    }
+    Ok(())
+}
+
 fn replay(args: &Args) {
     let behaviours = read_ndjson(args.input.as_ref().expect("--in"));
     let mut out = Outcome::new(
         args,
-        "every TLC-enumerated sequence of wall-clock readings (stream creation + publishes of the SAME body) executed on the real \
-         EphemeralStreamPublisher under the mock clock in 3 magnitudes; non-trivial = some reading not ahead of the previous timestamp; \
-         distinct by sequence x magnitude",
+        "every exported schedule of publish calls on up to 3 handles (one publisher and its clones) over a gossip channel of capacity \
+         1/2 that is drained only where the schedule says so - first polls, parked sends, resumes - executed on the real \
+         EphemeralStreamPublisher under the mock clock in 3 magnitudes, all with the SAME body; non-trivial = a publish drew its timestamp \
+         while another one was parked in the send await; distinct by schedule x magnitude",
     );
     let env = Env::new();
     for b in &behaviours {
@@ -204,77 +411,18 @@ fn replay(args: &Args) {
         }
         for &e in EMBEDDINGS {
             out.eval();
-            let emb = |x: u64| e.0 + x * e.1;
-            let mut stream: Option<Stream1> = None;
-            let mut seq: Vec<Published> = Vec::new();
-            let mut nontrivial = false;
-            let mut prev_t: Option<u64> = None;
-            let mut ok = true;
-            for (idx, step) in b["steps"].as_array().expect("steps").iter().enumerate() {
-                let w = step["w"].as_u64().unwrap();
-                let exp = (emb(step["ts"][0].as_u64().unwrap()), step["ts"][1].as_u64().unwrap());
-                match step["ev"].as_str().unwrap() {
-                    "CreateStream" => {
-                        stream = Some(env.create_stream(emb(w)));
-                        prev_t = Some(w);
-                    }
-                    "Publish" => {
-                        if prev_t.is_some_and(|p| w <= p) {
-                            nontrivial = true;
-                            out.count(if prev_t == Some(w) { "wall-equal" } else { "wall-earlier" });
-                        } else {
-                            out.count("wall-later");
-                        }
-                        prev_t = Some(prev_t.unwrap_or(0).max(w));
-                        let s = stream.as_mut().expect("stream created first");
-                        match s.publish(&env, emb(w), "same body every time") {
-                            Ok(p) => {
-                                if p.ts != exp {
-                                    // conformance; whether the property itself is hurt is judged below on the whole sequence
-                                    seq.push(p.clone());
-                                    if judge_sequence(&mut out, &seq, b) {
-                                        out.violation(
-                                            "C16",
-                                            "publisher-differs-from-spec",
-                                            format!("step {idx}: published timestamp {:?}, specification says {exp:?}", p.ts),
-                                            b.clone(),
-                                        );
-                                    }
-                                    ok = false;
-                                    break;
-                                }
-                                match s.roundtrip(&env, &p.bytes) {
-                                    Some((true, t, body)) if t == p.ts.0 && body == "same body every time" => {}
-                                    other => {
-                                        out.violation(
-                                            "C16",
-                                            "published-message-not-yielded",
-                                            format!("step {idx}: own subscription did not yield the published message as signed: {other:?}"),
-                                            b.clone(),
-                                        );
-                                        ok = false;
-                                        break;
-                                    }
-                                }
-                                seq.push(p);
-                            }
-                            Err(err) => {
-                                out.violation("C16", "publish-panics-or-fails", err, b.clone());
-                                ok = false;
-                                break;
-                            }
-                        }
-                    }
-                    other => {
-                        eprintln!("unknown step {other}");
-                        std::process::exit(2);
-                    }
-                }
+            let mut emitted = Vec::new();
+            let mut overlap = false;
+            let r = run_behaviour(&env, &mut out, b, e, &mut emitted, &mut overlap);
+            // the property itself first, on whatever was handed to gossip
+            let fine = judge_sequence(&mut out, &emitted, b);
+            match r {
+                Ok(()) if fine => out.sample(b.clone()),
+                Ok(()) => {}
+                Err(detail) if fine => out.violation("C16", "publisher-differs-from-spec", detail, b.clone()),
+                Err(_) => {}
             }
-            if ok && judge_sequence(&mut out, &seq, b) {
-                out.sample(b.clone());
-            }
-            if nontrivial {
+            if overlap {
                 out.mark_distinct(format!("{}|{e:?}", b["steps"]));
             }
         }
@@ -290,37 +438,107 @@ fn record(args: &Args) {
     let mut trace = TraceWriter::create(args.out.as_ref().expect("--out"));
     let mut out = Outcome::new(
         args,
-        "seeded random publish sequences of one body under a wall clock that jumps backwards, stands still, creeps and jumps forward \
-         (values <= 2^31-3); one trace event per stream creation / publish with the timestamp pair found in the published bytes",
+        "seeded random runs: up to 3 handles of one publisher publish the same body over a gossip channel of capacity 1/2/4 that the \
+         harness drains at random, under a wall clock that jumps backwards, stands still, creeps and jumps forward (values <= 2^31-3); \
+         parked calls are polled again only after their waker fired; one trace event per specification action",
     );
     let env = Env::new();
+    let names = ["p1", "p2", "p3"];
     for run in 0..n {
+        let gcap = *rng.pick(&[1usize, 1, 2, 4]);
         trace.event(json!({"ev": "Reset", "run": run, "cap": 1}));
-        trace.event(json!({"ev": "PubReset"}));
+        trace.event(json!({"ev": "PubReset", "gcap": gcap}));
         let base = rng.below(TLC_MAX - 200_000);
         let mut wall = base + 100_000;
-        let mut s = env.create_stream(wall);
+        let mut s = env.create_stream(wall, gcap);
         trace.event(json!({"ev": "CreateStream", "w": wall}));
-        let mut seq: Vec<Published> = Vec::new();
+        let mut emitted: Vec<Published> = Vec::new();
         let publishes = rng.range(3, 12);
+        let mut started = 0;
         let case = json!({"run": run, "seed": args.seed});
-        for _ in 0..publishes {
-            let last_t = seq.last().map(|p| p.ts.0).unwrap_or(wall);
+        let mut last_t = wall;
+        let mut guard = 0;
+        let mut failed = false;
+        loop {
+            guard += 1;
+            if guard > 500 {
+                break;
+            }
+            // executor: resume whatever was woken
+            for h in s.woken() {
+                out.eval();
+                match s.resume(&h) {
+                    Ok(true) => {
+                        trace.event(json!({"ev": "SendResume", "h": h}));
+                        trace.event(json!({"ev": "PubReturn", "h": h}));
+                    }
+                    Ok(false) => out.count("woken-but-still-pending"),
+                    Err(e) => {
+                        out.violation("C16", "publish-panics-or-fails", e, case.clone());
+                        failed = true;
+                    }
+                }
+            }
+            if failed {
+                break;
+            }
+            let idle: Vec<&str> = names.iter().copied().filter(|h| !s.inflight.contains_key(*h)).collect();
+            let finishing = started >= publishes;
+            if finishing && s.inflight.is_empty() {
+                // take what is left out of the channel and stop
+                match s.drain() {
+                    Ok(Some((p, woke))) => {
+                        trace.event(json!({"ev": "Drain", "ts": [p.ts.0, p.ts.1], "woke": woke}));
+                        emitted.push(p);
+                        continue;
+                    }
+                    Ok(None) => break,
+                    Err(e) => {
+                        out.violation("C16", "publish-panics-or-fails", e, case.clone());
+                        break;
+                    }
+                }
+            }
+            let do_drain = finishing || idle.is_empty() || rng.chance(1, 3);
+            if do_drain {
+                match s.drain() {
+                    Ok(Some((p, woke))) => {
+                        last_t = last_t.max(p.ts.0);
+                        trace.event(json!({"ev": "Drain", "ts": [p.ts.0, p.ts.1], "woke": woke}));
+                        emitted.push(p);
+                    }
+                    Ok(None) => {}
+                    Err(e) => {
+                        out.violation("C16", "publish-panics-or-fails", e, case.clone());
+                        break;
+                    }
+                }
+                continue;
+            }
+            // a new publish on an idle handle, with the next clock reading
             match rng.below(20) {
                 0..=3 => wall = wall.saturating_sub(rng.range(1, 50_000)).max(base),
-                4..=6 => {}
-                7..=9 => wall = last_t,
-                10..=12 => wall = (wall + 1).min(TLC_MAX),
-                13 => wall = *rng.pick(&[0, 1, TLC_MAX - 1, TLC_MAX]),
+                4..=8 => {}
+                9..=10 => wall = last_t,
+                11..=13 => wall = (wall + 1).min(TLC_MAX),
+                14 => wall = *rng.pick(&[0, 1, TLC_MAX - 1, TLC_MAX]),
                 _ => wall = (wall + rng.range(1, 5_000)).min(TLC_MAX),
             }
+            let h = *rng.pick(&idle);
+            if !s.inflight.is_empty() {
+                out.count("draw-while-another-publish-is-in-flight");
+            }
             out.eval();
-            out.count(if wall < last_t { "wall-earlier" } else if wall == last_t { "wall-equal" } else { "wall-later" });
-            match s.publish(&env, wall, "same body every time") {
-                Ok(p) => {
-                    out.mark_distinct(format!("{run}:{}:{wall}", seq.len()));
-                    trace.event(json!({"ev": "Publish", "w": wall, "ts": [p.ts.0, p.ts.1]}));
-                    seq.push(p);
+            started += 1;
+            match s.start(h, wall) {
+                Ok(done) => {
+                    out.mark_distinct(format!("{run}:{started}:{wall}"));
+                    trace.event(json!({"ev": "DrawTs", "h": h, "w": wall}));
+                    trace.event(json!({"ev": "SignEncode", "h": h}));
+                    trace.event(json!({"ev": "SendTry", "h": h, "waits": !done}));
+                    if done {
+                        trace.event(json!({"ev": "PubReturn", "h": h}));
+                    }
                 }
                 Err(e) => {
                     out.violation("C16", "publish-panics-or-fails", e, case.clone());
@@ -328,7 +546,7 @@ fn record(args: &Args) {
                 }
             }
         }
-        judge_sequence(&mut out, &seq, &case);
+        judge_sequence(&mut out, &emitted, &case);
     }
     let (events, runs) = trace.finish();
     out.set_trace(events, runs);
